@@ -93,7 +93,7 @@ theorem mapInsert_step {f : Forest} {e nm : Nat} {N A S : List HTree} (h : MInv 
     have habs := find?_key_none _ _ hf
     simp only
     obtain ⟨hloc1, hroot1, hne1, hbelow1⟩ := located_newNode h.loc h.below entry
-    have h1 : MInv (f.newNode entry).1 e nm N A S := ⟨hloc1, h.sect, h.uniq, hbelow1⟩
+    have h1 : MInv (f.newNode entry).1 e nm N A S := ⟨hloc1, h.sect, h.uniq, hbelow1, h.leaf⟩
     obtain ⟨hplace, hinv, hmap, hnodes⟩ :=
       place_absent h1 k f.next entry hm hroot1 hne1 habs
     rw [rootsWithout_newNode f h.below entry] at hplace hinv
@@ -183,6 +183,7 @@ theorem mapClear_step {f : Forest} {e nm : Nat} {N A S : List HTree} (h : MInv f
   rw [h1]
   refine ⟨⟨by simp, ?_, Nat.le_refl _⟩, trivial⟩
   apply h.update k []
+  · intro x hx; cases hx
   · simpa using h2
   · intro x hx; cases hx
   · simp
